@@ -53,6 +53,42 @@ func c02Run(rg *cpuRig, c *cpuCase) (taken bool, cond bool, sig string, err erro
 
 var c02Rig *cpuRig
 
+type c02HaltCase struct {
+	Src int   `json:"source"`
+	Op  uint8 `json:"following_opcode"`
+	A   uint8 `json:"a"`
+	F   uint8 `json:"f"`
+}
+
+func c02RunHalt(rg *cpuRig, c c02HaltCase) (sig string, err error) {
+	defer vf.Recover(&sig, &err)
+	m := rg.m
+	r := refcpu.Regs{A: c.A, F: c.F & 0xf0, B: 0x12, C: 0x34, D: 0x56, E: 0x78, H: 0xd2, L: 0x40, SP: 0xdfe0, PC: 0xc200}
+	cas := cpuCase{R: r, Code: []byte{0x76, c.Op, 0x00, 0x00}, Pokes: []cpuPoke{{0xd240, c.A ^ 0x5a}}}
+	rg.load(&cas)
+	if e := rg.prep(r, false); e != nil {
+		return "rig-boundary", e
+	}
+	m.Mp.Write(0xffff, 1<<uint(c.Src))
+	m.Mp.Write(0xff0f, 1<<uint(c.Src))
+	defer func() {
+		m.Mp.Write(0xffff, 0)
+		m.Mp.Write(0xff0f, 0)
+	}()
+	o1 := rg.exec(10, nil, nil)
+	if o1.Cycles != 1 || o1.R.PC != r.PC+1 {
+		return "cycles-76", fmt.Errorf("HALT with IME=0 and request bit %d pending took %d machine cycles (PC %04x), want 1", c.Src, o1.Cycles, o1.R.PC)
+	}
+	pre := o1.R
+	exp := refcpu.Step(pre, m.Mp.Read, true)
+	o2 := rg.exec(10, nil, nil)
+	if o2.R != exp.R || o2.Cycles != exp.Cycles {
+		return "cycles-after-halt", fmt.Errorf("HALT with IME=0 and request bit %d pending does not idle: the following instruction %02x must start in the next machine cycle and take %d cycles (registers then %+v); after %d cycle(s) the CPU is at a boundary with %+v",
+			c.Src, c.Op, exp.Cycles, exp.R, o2.Cycles, o2.R)
+	}
+	return "", nil
+}
+
 func c02Flavour() lsFlavour { return lsFlavour{flow: 8, mem: 6, raw: 2, irq: 1} }
 
 func c02GenProgram(rt *rapid.T) lsCase {
@@ -66,6 +102,14 @@ func c02GenProgram(rt *rapid.T) lsCase {
 }
 
 func init() {
+	vf.RegisterReplay("C02/halt", func(raw json.RawMessage) (string, error) {
+		var c c02HaltCase
+		if err := json.Unmarshal(raw, &c); err != nil {
+			return "", err
+		}
+		return c02RunHalt(newLockstepRig(), c)
+	})
+
 	vf.RegisterReplay("C02/opcode", func(raw json.RawMessage) (string, error) {
 		var c cpuCase
 		if err := json.Unmarshal(raw, &c); err != nil {
@@ -160,6 +204,35 @@ func TestC02(t *testing.T) {
 		}
 		c.Class("conditional-opcodes-with-both-outcomes-in-this-shard", int64(both))
 		c.Exhaustive("every defined opcode except STOP/HALT (243 base + 256 CB) x all 16 flag nibbles (hence both outcomes of every condition), x64 (quick) / x1024 (thorough) random other state")
+	})
+
+	// HALT has a documented length in one situation: with the master enable clear and an enabled request
+	// already pending it does not idle, so it occupies one machine cycle and the next instruction (fetched
+	// under the halt bug) starts in the following cycle and has its usual length.
+	c.Sub("halt-no-idle", func(t *testing.T) {
+		var n int64
+		idx := 0
+		for src := 0; src < 5; src++ {
+			for _, op := range lsRegOps8 {
+				idx++
+				if !c.Env.Mine(idx) {
+					continue
+				}
+				cas := c02HaltCase{Src: src, Op: op, A: uint8(idx * 37), F: uint8(idx%16) << 4}
+				sig, err := c02RunHalt(rg, cas)
+				n++
+				if idx%211 == 0 {
+					c.Sample("halt-no-idle", cas)
+				}
+				if err != nil {
+					if known, first := c.FailFirst("halt", sig, err.Error(), cas); !known && first {
+						t.Errorf("%v", err)
+					}
+				}
+			}
+		}
+		c.Bulk("halt-no-idle", n, n)
+		c.Exhaustive("HALT with IME=0 and an enabled request pending x 5 sources x every one-byte register/(HL) opcode as the following instruction: HALT takes 1 machine cycle and the following instruction its documented length")
 	})
 
 	c.Rapid("programs", 40000, 1000000, func(rt *rapid.T) {
